@@ -3,6 +3,7 @@ package main
 import (
 	"go/token"
 	"go/types"
+	"strings"
 
 	"golang.org/x/tools/go/ssa"
 )
@@ -574,4 +575,185 @@ func init() {
 func isByteType(t types.Type) bool {
 	b, ok := t.Underlying().(*types.Basic)
 	return ok && b.Kind() == types.Uint8
+}
+
+func init() {
+	extendProp("C25", "Freezing deletes block data only through the audited deletion helpers: the rawdb Delete* functions reachable from chainFreezer.freeze (through its package-local helpers) form a closed set that contains no index deletion (transaction lookups, canonical-hash markers of other heights), so migrating or wiping a side block can never remove an index entry that points at canonical data.", nil, func(c *Ctx) {
+		c.Rule("WHO/C25.deleters")
+		rdb := "core/rawdb"
+		f := c.Fn(rdb, "(*chainFreezer).freeze")
+		if f == nil {
+			return
+		}
+		audited := map[string]string{
+			"DeleteBlockWithoutNumber": "frozen canonical block: header, body, receipts, td (the hash→number mapping is kept)",
+			"DeleteBlock":              "side block at a frozen height / dangling descendant",
+			"DeleteCanonicalHash":      "canonical marker of the frozen height (now served by the freezer)",
+			"DeleteHeader":             "part of DeleteBlock",
+			"deleteHeaderWithoutNumber": "part of DeleteBlockWithoutNumber/DeleteHeader",
+			"DeleteBody":               "part of DeleteBlock*",
+			"DeleteReceipts":           "part of DeleteBlock*",
+			"DeleteTd":                 "part of DeleteBlock*",
+			"DeleteHeaderNumber":       "part of DeleteHeader (side blocks only)",
+			"DeleteAccessList":         "part of DeleteBlock* (the block's own access list, keyed by number and hash)",
+		}
+		seen := map[*ssa.Function]bool{}
+		found := map[string]bool{}
+		var walk func(g *ssa.Function, d int)
+		walk = func(g *ssa.Function, d int) {
+			if seen[g] || d > 3 {
+				return
+			}
+			seen[g] = true
+			c.Funcs[g] = true
+			eachInstr(g, func(in ssa.Instruction) {
+				call, ok := in.(ssa.CallInstruction)
+				if !ok {
+					return
+				}
+				if mc, ok := call.Common().Value.(*ssa.MakeClosure); ok {
+					walk(mc.Fn.(*ssa.Function), d+1)
+				}
+				for _, a := range call.Common().Args {
+					if mc, ok := a.(*ssa.MakeClosure); ok {
+						walk(mc.Fn.(*ssa.Function), d+1)
+					}
+				}
+				cal := call.Common().StaticCallee()
+				if cal == nil || cal.Pkg == nil || cal.Pkg != f.Pkg {
+					return
+				}
+				nm := cal.Name()
+				if len(nm) >= 6 && (nm[:6] == "Delete" || nm[:6] == "delete") {
+					found[nm] = true
+					why, ok := audited[nm]
+					if ok {
+						c.OK("deleter/"+nm, in.Pos(), why)
+					} else {
+						c.Bad("deleter/"+nm, in.Pos(), "freezing reaches "+nm+" (from "+fnName(g)+"), which is not one of the audited block-data deletions: an index entry (e.g. the transaction lookup shared with the canonical block of the same height) disappears when a side block is wiped")
+					}
+				}
+				walk(cal, d+1)
+			})
+		}
+		walk(f, 0)
+		c.Expect(3, len(found), "deletion helpers reachable from freeze")
+	})
+}
+
+func init() {
+	extendProp("C28", "A frame never reads or writes below its own stack base in the shared arena: for every operation bound in a jump table, the deepest stack slot its execute function touches is covered by the declared minStack, and depths computed at run time (DUPN/SWAPN/EXCHANGE) sit behind a Stack.len() guard of at least that depth — otherwise a callee would reach its caller's items.", nil, func(c *Ctx) {
+		c.Rule("STACKFX/C28.frames")
+		pkg := c.Pkgs[vmp]
+		if pkg == nil {
+			return
+		}
+		n := 0
+		for _, b := range extractOpBindings(c, pkg) {
+			if b.Partial {
+				continue
+			}
+			ex, hasEx := b.Fields["execute"]
+			if !hasEx {
+				continue
+			}
+			id := b.OpName + "@" + b.Builder
+			fn, env, ok := resolveFuncExpr(c, pkg, ex)
+			if !ok {
+				continue
+			}
+			c.Funcs[fn] = true
+			fx := stackEffect(fn, env, 0)
+			n++
+			if fx.Undecided != "" {
+				if strings.Contains(fx.Undecided, "no dominating Stack.len() check") {
+					c.Bad(id+"/own-frame", b.Pos, "a stack slot at a run-time depth is accessed without a sufficient Stack.len() guard: in a nested frame the slot below the frame's base belongs to the caller ("+fx.Undecided+")")
+				}
+				continue // other undecided effects are C27's business
+			}
+			mn, okMin := int64(0), true
+			if e, has := b.Fields["minStack"]; has {
+				mn, okMin = evalIntExpr(c, pkg, e)
+			}
+			if !okMin {
+				continue
+			}
+			c.Check(int(mn) >= fx.Need, id+"/own-frame", b.Pos, "deepest slot touched is within the frame's own items", "the operation touches a slot deeper than its declared minStack: in a nested frame that slot is the caller's")
+		}
+		c.Expect(150, n, "operations checked for frame-local stack access")
+	})
+}
+
+func init() {
+	extendProp("C26", "EXTCODEHASH follows EIP-1052/EIP-161: the hash slot is zeroed exactly under StateDB.Empty(address) (an existing but empty account yields 0, not the empty-code hash), and the code hash is pushed on the other branch.", nil, func(c *Ctx) {
+		c.Rule("CHECKSHAPE/C26.extcodehash")
+		f := c.Fn(vmp, "opExtCodeHash")
+		if f == nil {
+			return
+		}
+		empty := c.Calls(f, "(core/vm.StateDB).Empty")
+		clr := c.Calls(f, "(*github.com/holiman/uint256.Int).Clear")
+		set := c.Calls(f, "(core/vm.StateDB).GetCodeHash")
+		c.Expect(1, len(clr), "zero push in opExtCodeHash")
+		c.Expect(1, len(set), "code-hash push in opExtCodeHash")
+		tE, fE := map[Edge]bool{}, map[Edge]bool{}
+		for _, s := range empty {
+			call := s.Instr.(*ssa.Call)
+			for e := range ResultTrueEdges(call, 0) {
+				tE[e] = true
+			}
+			for e := range EdgesWhere(f, False(Is(call))) {
+				fE[e] = true
+			}
+		}
+		c.Dom("zero-iff-empty", f, clr, "zero pushed", Guard{Desc: "StateDB.Empty(address)", Steps: []Step{{Edges: tE}}, Sites: len(tE)})
+		c.Dom("hash-iff-nonempty", f, set, "code hash pushed", Guard{Desc: "!StateDB.Empty(address)", Steps: []Step{{Edges: fE}}, Sites: len(fE)})
+	})
+
+	extendProp("C27", "Memory.GetPtr tolerates the zero-length operands that the memory-size functions leave unconstrained: its slice expression lies behind the size != 0 outcome (a zero size returns before slicing), so KECCAK256/CALL with size 0 and an arbitrary offset cannot panic.", nil, func(c *Ctx) {
+		c.Rule("DOM/C27.zerosize")
+		f := c.Fn(vmp, "(*Memory).GetPtr")
+		if f == nil {
+			return
+		}
+		c.Funcs[f] = true
+		var sl []Site
+		eachInstr(f, func(in ssa.Instruction) {
+			if _, ok := in.(*ssa.Slice); ok {
+				sl = append(sl, Site{f, in})
+			}
+		})
+		c.Expect(1, len(sl), "slice of the memory store in GetPtr")
+		c.Dom("nonzero-size", f, sl, "memory sliced", GCond("size != 0", f, Cmp(Param("size"), token.NEQ, ConstInt(0))))
+	})
+
+	extendProp("C32", "A balance credited to an account is a value of its own: what AddBalance/SubBalance hand to SetBalance is a freshly computed integer, never the caller's argument, so a caller that reuses its scratch integer (the uncle-reward loop does) cannot change a balance afterwards.", []string{"core/state"}, func(c *Ctx) {
+		c.Rule("IMMUT/C32.balancearg")
+		cst := "core/state"
+		n := 0
+		for _, fn := range []string{"(*stateObject).AddBalance", "(*stateObject).SubBalance"} {
+			f := c.TryFn(cst, fn)
+			if f == nil {
+				continue
+			}
+			c.Funcs[f] = true
+			for _, s := range c.Calls(f, "(*"+cst+".stateObject).SetBalance") {
+				n++
+				a := s.Instr.(*ssa.Call).Call.Args[1]
+				c.Check(!Mentions(Param("amount"))(a) || isFreshArith(a), "fresh-balance/"+fnName(f), s.Pos(), "the stored balance is a newly computed integer", fnName(f)+" stores the caller's own *uint256.Int as the account balance: the balance then aliases an integer the caller may keep mutating (consensus reward loops reuse one scratch value), so ether appears or vanishes after the credit")
+			}
+		}
+		c.Expect(1, n, "SetBalance calls in AddBalance/SubBalance")
+	})
+}
+
+// isFreshArith: v is the result of an arithmetic method applied on a newly
+// allocated uint256/big integer (new(T).Op(...)): a fresh object.
+func isFreshArith(v ssa.Value) bool {
+	call, ok := v.(*ssa.Call)
+	if !ok || call.Call.IsInvoke() || len(call.Call.Args) == 0 {
+		return false
+	}
+	_, isNew := call.Call.Args[0].(*ssa.Alloc)
+	return isNew
 }
